@@ -201,3 +201,18 @@ Example c05_race_example :
     /\ (forall id o, ~ In (HDone id o) (nth 1 (snd (rrun h_init es)) []))
     /\ In (HDone 7 OOk) (nth 2 (snd (rrun h_init es)) []).
 Proof. exact race_example. Qed.
+
+(* ---- the tie to the source text: the synchronous frame handler -------------------------------------
+   [apply_frame] (the effect of one received frame on the host: counters, failed flag, timeout reset,
+   writes, upward calls, the acknowledgement future) is what the receive-side methods of AshProtocol,
+   emitted from their source on every run (gen/GenAshRxFn.v), do. *)
+Require Import BV.gen.GenAshRxFn BV.proofs.AshRxSrc_proofs.
+Theorem c05_source_frame_handler : forall st code f,
+  let '(rx', tx', fl', _, eff) := py_frame_received (rx_seq st, tx_seq st, failed st, code) f in
+  let st' := fst (apply_frame st f) in
+  rx_seq st' = rx' /\ tx_seq st' = tx' /\ failed st' = fl'
+  /\ snd (apply_frame st f) = flat_map eff_hout eff
+  /\ cur st' = cur (fold_left eff_fut eff st)
+  /\ t_ack st' = (if has_init eff then clamp T_RX_ACK_INIT_F else t_ack st)
+  /\ now st' = now st /\ waiters st' = waiters st /\ cancelled st' = cancelled st.
+Proof. exact src_apply_frame. Qed.
